@@ -1058,6 +1058,8 @@ class Module:
             if op in ('==', '!=', '<', '>', '<=', '>='):
                 lop = {'==': '==', '!=': '!=', '<': '<', '>': '>', '<=': '≤', '>=': '≥'}[op]
                 if op in ('==', '!='):
+                    if not pa and not pb and a[0] != 'num' and b[0] != 'num' and tb < ta:
+                        ta, tb = tb, ta           # `a == b` and `b == a` are one form (operands without effects)
                     return pa + pb, f"({ta} {lop} {tb})"
                 return pa + pb, f"(decide ({ta} {lop} {tb}))"
             if op == '+':
